@@ -9,6 +9,9 @@ import (
 	"golang.org/x/tools/go/ssa"
 )
 
+// Debug makes traces print call arguments.
+var Debug = false
+
 // Pred selects events.
 type Pred func(e *Event) bool
 
@@ -216,6 +219,9 @@ func (e *Event) String() string {
 	if e.PanicsHere {
 		flags += " [panics here]"
 	}
+	if e.InGo {
+		flags += " [goroutine]"
+	}
 	if e.Depth > 0 {
 		flags += fmt.Sprintf(" [in %s]", e.Fn.Name())
 	}
@@ -225,7 +231,13 @@ func (e *Event) String() string {
 		if e.Inlined {
 			in = " (analysed in place)"
 		}
-		return "call " + e.Call.Name() + in + flags
+		args := ""
+		if Debug {
+			for _, a := range e.Call.Args {
+				args += " <" + a.Describe() + ">"
+			}
+		}
+		return "call " + e.Call.Name() + args + in + flags
 	case EvGo:
 		return "go " + e.Call.Name() + flags
 	case EvDefer:
@@ -386,4 +398,16 @@ func AllocName(s *Sym) string {
 		return a.Comment
 	}
 	return ""
+}
+
+// Extract returns the sym of component i of a tuple-valued sym on this path
+// (nil if the component is never used).
+func (p *Path) Extract(tuple *Sym, i int) *Sym {
+	if tuple == nil {
+		return nil
+	}
+	if (tuple.Kind == KTuple || tuple.Kind == KSelect) && i < len(tuple.Elems) {
+		return tuple.Elems[i]
+	}
+	return p.st.canon[ckey{base: tuple, idx: i, kind: KExtract}]
 }
